@@ -27,6 +27,7 @@ import (
 	keeperutil "github.com/palomachain/paloma/v2/util/keeper"
 	"github.com/palomachain/paloma/v2/verifharness/emit"
 	palomatypes "github.com/palomachain/paloma/v2/x/paloma/types"
+	skywaykeeper "github.com/palomachain/paloma/v2/x/skyway/keeper"
 	skywaytypes "github.com/palomachain/paloma/v2/x/skyway/types"
 	valsettypes "github.com/palomachain/paloma/v2/x/valset/types"
 )
@@ -581,15 +582,26 @@ func (w *world) apply(o op) int64 {
 		})
 		return classify(err, p, false)
 	case "SetFeegranter":
+		// the real x/paloma proposal handler, on a branch written back on success (as x/gov does)
 		w.feegranter = o.a.id
-		return classify(e.paloma.SetLightNodeClientFeegranter(e.ctx, w.addrs[o.a.id]), false, false)
+		return classify(e.govern(func(ctx sdk.Context) error {
+			return palomamod.NewPalomaProposalHandler(*e.paloma)(ctx, &palomatypes.SetLightNodeClientFeegranterProposal{
+				Title: "t", Description: "d", FeegranterAccount: w.addrs[o.a.id].String()})
+		}), false, false)
 	case "SetFunders":
 		as := make([]sdk.AccAddress, len(o.list))
 		for i, f := range o.list {
 			as[i] = w.addrs[f]
 		}
 		w.funders, w.hasFunders = o.list, true
-		return classify(e.paloma.SetLightNodeClientFunders(e.ctx, as), false, false)
+		strs := make([]string, len(as))
+		for i, a := range as {
+			strs[i] = a.String()
+		}
+		return classify(e.govern(func(ctx sdk.Context) error {
+			return palomamod.NewPalomaProposalHandler(*e.paloma)(ctx, &palomatypes.SetLightNodeClientFundersProposal{
+				Title: "t", Description: "d", FunderAccounts: strs})
+		}), false, false)
 	case "SetContracts":
 		cs := make([]*skywaytypes.LightNodeSaleContract, len(o.pairs))
 		w.contracts = map[int]int{}
@@ -597,7 +609,11 @@ func (w *world) apply(o op) int64 {
 			cs[i] = &skywaytypes.LightNodeSaleContract{ChainReferenceId: chainStr(p[0]), ContractAddress: contractStr(p[1])}
 			w.contracts[p[0]] = p[1]
 		}
-		return classify(e.skyway.SetAllLighNodeSaleContracts(e.ctx, cs), false, false)
+		// the real x/skyway proposal handler
+		return classify(e.govern(func(ctx sdk.Context) error {
+			return skywaykeeper.NewSkywayProposalHandler(e.skyway)(ctx, &skywaytypes.SetLightNodeSaleContractsProposal{
+				Title: "t", Description: "d", LightNodeSaleContracts: cs})
+		}), false, false)
 	case "Tick":
 		e.ctx = e.ctx.WithBlockTime(e.ctx.BlockTime().Add(time.Duration(o.dt) * time.Second)).WithBlockHeight(e.ctx.BlockHeight() + 1)
 		return 0
